@@ -302,8 +302,12 @@ def run(tier):
         behaviours = behaviours[:n_ex] + behaviours[n_ex:][:70]
     else:
         behaviours = behaviours[:n_ex] + behaviours[n_ex:][:420]
+    # a few sampled histories get EVERY candidate alteration (every metadata byte, every structural offset and
+    # member boundary of every archive of every chain); the others a stratified sample
+    for b in behaviours[n_ex:][:(2 if tier == "quick" else 25)]:
+        b["alts"] = 0
     timelines = gen_timelines(ck, tier)
-    args = ["--alts", 40] if tier == "quick" else ["--alts", 260]
+    args = ["--alts", 40] if tier == "quick" else ["--alts", 160]
     stats, events, bad, by_key = replay_and_judge(ck, behaviours, timelines, tier, extra_args=args)
     phases, classes, outcomes = summarize(events)
     nb = [sum(1 for s in b["steps"] if s["t"] in ("bfull", "bincr")) for b in behaviours]
